@@ -31,6 +31,8 @@ def nq_type(conds, sig, spec):
     if spec[0] == "T21":
         tq = set(scopes.type_queries(sems, nW, 2, 1)) | set(scopes.type_queries(sems, nW, 1, 2))
         return len(tq) + 72
+    if spec[0] == "W12":
+        return len(scopes.world_queries(nW)) + 72
     return len(scopes.type_queries(sems, nW, spec[0], spec[1])) + 72
 
 
